@@ -254,3 +254,32 @@ Theorem atoms_untouched f x s : consp x = false -> run F (S f) (TExpand x) s = (
 Proof. destruct x; try discriminate; reflexivity. Qed.
 
 End Stable.
+
+(* ---- one expansion step of a user macro ------------------------------------ *)
+(* the element walk over the expansion *)
+Definition expand_elems (rec : task -> M sx) (x : sx) : M sx :=
+  match x with
+  | Cons a d =>
+      (fix spine (a d : sx) (acc : list sx) {struct d} : M sx :=
+         a' <- expand rec a ;;
+         match d with
+         | Nil => ret (of_list (acc ++ [a']) Nil)
+         | Cons a2 d2 => spine a2 d2 (acc ++ [a'])
+         | o => ret (of_list (acc ++ [a']) o)
+         end) a d []
+  | _ => ret x
+  end.
+
+(* A list whose head is a symbol bound to a user macro: the definition is applied  *)
+(* to the argument forms AS WRITTEN (evalp = false: they are neither evaluated nor  *)
+(* expanded first), the result is expanded again, then its elements.                *)
+Theorem user_macro_step F f head k ps body args s :
+  key_of head = Some k -> sym_get head s = (Ok (Mac ps body), s) ->
+  run F (S f) (TExpand (Cons head args)) s =
+  bind (eval_function (run F f) false ps body args)
+       (fun e => bind (run F f (TExpand e)) (fun x => expand_elems (run F f) x)) s.
+Proof.
+  intros Hk Hg. cbn [run step]. rewrite Hk. unfold catch, bind at 1. rewrite Hg.
+  unfold ret at 1. unfold bind, expand, expand_elems.
+  destruct (eval_function (run F f) false ps body args s) as [[e|e|n|] s1]; try reflexivity.
+Qed.
